@@ -116,6 +116,10 @@ def check_segments(n, changes):
                 got = f["spread_KIND_wise"](arr, data_k)
                 if got.shape != (n,) + shape or got.tolist() != [data_k[seg_of[i]].tolist() for i in range(n)]:
                     return f"{kind} spread of per-segment data with shape {(len(segs),) + shape}: result shape {got.shape}"
+            # results of any scalar type, strings included (all results of one call have the same type and length)
+            got = f["apply_KIND_wise"](arr, data, lambda x: f"{int(x.sum()) % 1000:03d}")
+            if np.asarray(got).tolist() != [f"{sum(int(data[i]) for i in s) % 1000:03d}" for s in segs]:
+                return f"{kind} apply with a function returning three-character strings: {np.asarray(got).tolist()}"
             # without an axis the function sees the whole block of a segment (2-D integer / bool data too)
             d2 = (np.arange(2 * n).reshape(n, 2) % 5)
             for dd in (d2, d2 > 1):
